@@ -147,7 +147,7 @@ class Spec(PropSpec):
     ]
 
     def gen_cases(self, ctx):
-        n = 160 if ctx.tier == "quick" else 2500
+        n = 400 if ctx.tier == "quick" else 2500
         if ctx.escalate:
             n *= 2
         cases = []
